@@ -248,6 +248,14 @@ def item_upgrade_flags(repo, out):
             and _u(ul[1].test) == "improved_info['shape'][1:]!=original_info['shape'][1:]"):
         raise TranslateError('_upgrade_chunk_info: shape check is not `shape[1:] != shape[1:] -> ValueError`')
     _match(r'chunk_info\[key\]=improved_info', _u(ul[2]), '_upgrade_chunk_info replacement')
+    # _ensure_prefix_is_set: an info without 'prefix' gets telstate[<chunk name key>] of the telstate it is given
+    ep = _func(tree, '_ensure_prefix_is_set', REL)
+    eb = [_u(s).replace('\n', ';') for s in _body(ep)]
+    if [a.arg for a in ep.args.args] != ['chunk_info', 'telstate'] or len(eb) != 2 or eb[1] != 'returnchunk_info':
+        raise TranslateError('_ensure_prefix_is_set: unexpected skeleton')
+    m = _match(r"forinfoinchunk_info\.values\(\):;if'prefix'notininfo:;info\['prefix'\]=telstate\[%s\]" % STR, eb[0],
+               '_ensure_prefix_is_set')
+    out.append('Definition ci_prefix_key : string := %s.' % coq_string(m.group(1)))
     out.append('Definition fl_archived_key : string := %s.' % coq_string(archived_key))
     out.append('Definition fl_type_key : string := %s.' % coq_string(type_key))
     out.append('Definition fl_type : string := %s.' % coq_string(ftype))
